@@ -291,6 +291,33 @@ func (x *Exec) Offsets(f *FileState, c *Check, defStride int) []int {
 		out = append(out, o)
 	}
 	sort.Ints(out)
+	// bound the work per check: an even, key-shifted subsample
+	max := 160
+	if x.Sc != nil && x.Sc.Tier == "thorough" {
+		max = 1200
+	}
+	if c != nil && c.Max > 0 {
+		max = c.Max
+	}
+	if len(out) > max {
+		var key uint64
+		if c != nil {
+			key = c.Key
+		}
+		step := float64(len(out)) / float64(max)
+		shift := float64(key%1000) / 1000 * step
+		sub := make([]int, 0, max)
+		for i := 0; i < max; i++ {
+			k := int(shift + float64(i)*step)
+			if k >= len(out) {
+				k = len(out) - 1
+			}
+			if len(sub) == 0 || sub[len(sub)-1] != out[k] {
+				sub = append(sub, out[k])
+			}
+		}
+		out = sub
+	}
 	return out
 }
 
